@@ -39,6 +39,7 @@ def gen(seed):
         req = [k for k in ('K2', 'K3') if int(k[1]) > j and rnd.random() < 0.6]
         m.bkm[name] = {'c': rnd.choice(PRIMES[:8]), 'd': rnd.choice(PRIMES[8:]), 'req': req}
     m.bkm['K5'] = {'two': True, 'req': []}
+    m.bkm['K6'] = {'boxed': True, 'req': [], 'c': rnd.choice(PRIMES[:8]), 'd': rnd.choice(PRIMES[8:])}
     m.dec = {}
     m.svc = {}
     order = []
@@ -57,6 +58,11 @@ def gen(seed):
             terms.append(('svc', s, [rnd.choice(PRIMES) for _ in sv['params']]))
         if d['kind'] == 'inv' and not d['bkms']:
             d['kind'] = 'lit'
+        if k in (1, 4) and rnd.random() < 0.8:
+            # the knowledge model K6 is called with a constant and the input of its parameter's name is read AFTER the call
+            d['inputs'] = sorted(set(d['inputs'] + ['In A']))
+            d['bkms'] = d['bkms'] + ['K6']
+            terms.append(('k6', rnd.choice(PRIMES), rnd.choice(PRIMES)))
         if k in (2, 6) and rnd.random() < 0.8:
             # a boxed invocation of the two-parameter knowledge model K5, whose parameters are NAMED like two inputs: each binding formula is
             # evaluated over the decision's own context, so `In A` in the second formula is the input, not the first parameter
@@ -109,6 +115,8 @@ def expr_text(m, d):
             parts.append(str(t[1]))
         elif t[0] == 'var':
             parts.append('%d * %s' % (t[1], t[2]))
+        elif t[0] == 'k6':
+            parts.append('K6(%d) + %d * In A' % (t[1], t[2]))
         elif t[0] == 'bkm':
             parts.append('%s(%s)' % (t[1], t[2]))
         else:
@@ -127,6 +135,12 @@ def xml(m):
     for i in INPUTS:
         out.append('  <inputData name="%s" id="%s"><variable name="%s" typeRef="number"/></inputData>' % (i, ident(i), i))
     for (n, b) in m.bkm.items():
+        if b.get('boxed'):
+            # K6(In A) = {t: In A * c, <result>: t + d}: a boxed context with a result entry; its parameter bears the name of an input
+            out.append('  <businessKnowledgeModel name="K6" id="_K6"><variable name="K6"/><encapsulatedLogic><formalParameter name="In A" typeRef="number"/>'
+                       '<context><contextEntry><variable name="t"/><literalExpression><text>In A * %d</text></literalExpression></contextEntry>'
+                       '<contextEntry><literalExpression><text>t + %d</text></literalExpression></contextEntry></context></encapsulatedLogic></businessKnowledgeModel>' % (b['c'], b['d']))
+            continue
         if b.get('two'):
             out.append('  <businessKnowledgeModel name="K5" id="_K5"><variable name="K5"/><encapsulatedLogic><formalParameter name="In A" typeRef="number"/><formalParameter name="In B" typeRef="number"/>'
                        '<literalExpression><text>In A * 3 + In B * 5</text></literalExpression></encapsulatedLogic></businessKnowledgeModel>')
@@ -190,6 +204,9 @@ def ev_term(m, t, env):
         return t[1]
     if t[0] == 'var':
         return t[1] * env[t[2]]
+    if t[0] == 'k6':
+        b = m.bkm['K6']
+        return t[1] * b['c'] + b['d'] + t[2] * env['In A']
     if t[0] == 'bkm':
         return ev_bkm(m, t[1], env[t[2]] if isinstance(t[2], str) else t[2])
     sv = m.svc[t[1]]
